@@ -125,6 +125,23 @@ def check(ctx):
                 o.fail(P, 'Asset.add_value', 'self._value += value; self._value_history.append((label, self._env.now, value, self._value))',
                        f'for a {"zero" if z == "T" else "non-zero"} change add_value does {sorted(fl) or "nothing"}; expected {sorted(want) or "nothing"} '
                        '(value += change once, then one history entry (label, now, change, new total))', file=A.mod.path, line=fn.lineno, path=res.path_lines(g.exit, st))
+    # add_value is all-or-nothing on an asset that has no environment yet (Asset.initialize itself tests `_env == None`): the environment is
+    # not dereferenced after the value was changed -- an AttributeError there leaves value != start + sum(history)
+    o.count()
+    mutn = [n for n in g.nodes.values() if n.kind == 'stmt' and isinstance(n.ast, (ast.Assign, ast.AugAssign))
+            and any(is_self_attr(t, '_value') for t in (n.ast.targets if isinstance(n.ast, ast.Assign) else [n.ast.target]))]
+    if mutn:
+        later = g.reach([m for x in mutn for l, m in g.succ[x.id] if l != 'exc'], follow=lambda l: l != 'exc')
+        for i in sorted(later):
+            n = g.nodes[i]
+            if n.ast is None or n.kind not in ('stmt', 'cond', 'return'):
+                continue
+            if any(isinstance(x, ast.Attribute) and (is_self_attr(x.value, '_env') or is_self_attr(x.value, 'env')) for x in ast.walk(n.ast)):
+                o.fail(P, 'Asset.add_value', None, 'add_value changes the value and only then reads the environment (the time of the history entry): on an asset that is not initialised '
+                       'yet the AttributeError leaves the new value without a history entry, so value != starting value + recorded changes', node=n)
+                break
+        else:
+            o.witness('env-read-before-change')
     for s in inv.attr_stores(P, '_value'):
         o.count()
         if not (s.cls is A and s.func.name in inv.covered(P, {'__init__', 'initialize', 'add_value'})):
